@@ -65,6 +65,15 @@ def var_serial(name):
         return -1
 
 
+def swap_counter(new=None, start=None):
+    """replace the name counter (returns the old one): build_query numbers its own auxiliary names from a fixed base so
+    that the text of a query does not depend on which other queries were generated before it"""
+    global _counter
+    old = _counter
+    _counter = new if new is not None else itertools.count(start)
+    return old
+
+
 def reset_counter():
     """names need to be unique within one function's analysis only; restarting makes queries reproducible
     (and cacheable) regardless of the order in which functions are analysed."""
